@@ -20,7 +20,7 @@ for a in sys.argv[3:]:
         tier = a
 keep = "--keep" in sys.argv
 prop = "C" + NN
-base = f"/tmp/seed{'3' if int(n) >= 5 else '2' if int(n) >= 3 else ''}-c{NN}"
+base = f"/tmp/seed{'4' if int(n) >= 7 else '3' if int(n) >= 5 else '2' if int(n) >= 3 else ''}-c{NN}"
 src = f"{base}/_seed/{n}"
 wt = f"/tmp/confirm-c{NN}-{n}"
 env = dict(os.environ, GOFLAGS="-mod=mod", GOPROXY="off", GOSUMDB="off", GOTOOLCHAIN="local",
